@@ -394,6 +394,13 @@ pub(crate) fn http_get(base_url: &str, path: &str) -> Result<Vec<u8>> {
     Ok(body)
 }
 
+/// Verification seam: the private chunked-transfer decoder, re-exported for
+/// the external exhaustive checker.
+#[cfg(feature = "verif")]
+pub fn verif_dechunk(b: &[u8]) -> Option<Vec<u8>> {
+    dechunk(b)
+}
+
 /// Decode HTTP/1.1 chunked transfer encoding.
 fn dechunk(mut b: &[u8]) -> Option<Vec<u8>> {
     let mut out = Vec::new();
